@@ -417,3 +417,123 @@ Example C20_nonvacuous_completable :
   let C := [mkVote 0 0 0; mkVote 1 0 0; mkVote 2 0 0]%nat in
   round_state_of [0%nat] [1;1;1;1] V C = mkRS (Some 1%nat) (Some 0%nat) (Some 0%nat) true (Some 0%nat).
 Proof. vm_compute. reflexivity. Qed.
+
+(* ---- Completeness of findContainingNodes; EVERY Insert preserves the full invariant -------------
+   (C20/GraphComplete.v; UNBOUNDED, closer round).  heads_cover G heads: every vote-node has a head
+   at or below it that is a vote-node -- the only fact about the heads the walk of
+   findContainingNodes needs (the g_desc lists are read by neither findContainingNodes nor Insert).
+   With chain_inv, anc_wf and "the base is a vote-node" the walk finds EVERY vote-node whose
+   ancestor edge passes through h; hence branch_complete (the hypothesis of
+   C20_graph_insert_branch) and "the result [] means no vote-node lies below h" (the hypothesis of
+   C20_graph_insert_append) are theorems, and full_inv is preserved by every Insert with no side
+   hypothesis. *)
+From C20 Require Import GraphComplete.
+
+Theorem C20_graph_find_containing_complete : forall t lbl G h,
+  chain_inv t G -> anc_wf t G -> (exists e0, eget 0%nat G = Some e0) -> eget h G = None ->
+  forall heads ds, heads_cover t G heads -> find_containing t lbl G heads h = Some ds ->
+  forall x, (exists e p, eget x G = Some e /\ ancestor_node e = Some p /\ anc t h x /\ anc t p h) ->
+  In x ds.
+Proof. exact find_containing_complete. Qed.
+Print Assumptions C20_graph_find_containing_complete.
+
+Theorem C20_graph_branch_complete : forall t lbl G h,
+  chain_inv t G -> anc_wf t G -> (exists e0, eget 0%nat G = Some e0) -> eget h G = None ->
+  forall heads ds, heads_cover t G heads -> find_containing t lbl G heads h = Some ds ->
+  branch_complete t G ds h.
+Proof. exact complete_branch. Qed.
+Print Assumptions C20_graph_branch_complete.
+
+Theorem C20_graph_empty_means_no_node_below : forall t lbl G h,
+  chain_inv t G -> anc_wf t G -> (exists e0, eget 0%nat G = Some e0) -> eget h G = None ->
+  forall heads, heads_cover t G heads -> find_containing t lbl G heads h = Some nil ->
+  forall y ey, eget y G = Some ey -> ~ anc t h y.
+Proof. exact complete_empty. Qed.
+Print Assumptions C20_graph_empty_means_no_node_below.
+
+Theorem C20_graph_insert_heads_cover : forall t lbl G heads h b,
+  anc_wf t G -> (exists e0, eget 0%nat G = Some e0) -> heads_cover t G heads ->
+  heads_cover t (fst (insert t lbl G heads h b)) (snd (insert t lbl G heads h b)).
+Proof. exact insert_cover. Qed.
+Print Assumptions C20_graph_insert_heads_cover.
+
+(* full_inv = chain_inv /\ cum_ok /\ anc_wf /\ base is a vote-node /\ votes sit on vote-nodes /\
+   heads_cover: EVERY Insert preserves it -- no hypothesis on the path taken or on what
+   findContainingNodes returned *)
+Theorem C20_graph_insert_preserves_all : forall t lbl G heads h b ins,
+  chain_inv t G /\ cum_ok t G ins /\ anc_wf t G /\ (exists e0, eget 0%nat G = Some e0) /\
+  (forall p, In p ins -> exists e, eget (fst p) G = Some e) /\ heads_cover t G heads ->
+  let G' := fst (insert t lbl G heads h b) in
+  let heads' := snd (insert t lbl G heads h b) in
+  let ins' := ((h, b) :: ins)%list in
+  chain_inv t G' /\ cum_ok t G' ins' /\ anc_wf t G' /\ (exists e0, eget 0%nat G' = Some e0) /\
+  (forall p, In p ins' -> exists e, eget (fst p) G' = Some e) /\ heads_cover t G' heads'.
+Proof. exact insert_preserves_all. Qed.
+Print Assumptions C20_graph_insert_preserves_all.
+
+Theorem C20_graph_init_full_inv : forall t, full_inv t (r_G rinit) (r_heads rinit) nil.
+Proof. exact init_full_inv. Qed.
+Print Assumptions C20_graph_init_full_inv.
+
+(* hence after ANY sequence of Inserts from the initial graph (vs: newest first) *)
+Theorem C20_graph_inserts_full_inv : forall t lbl vs,
+  full_inv t (fst (inserts t lbl vs)) (snd (inserts t lbl vs)) vs.
+Proof. exact inserts_full_inv. Qed.
+Print Assumptions C20_graph_inserts_full_inv.
+
+(* [reach_all]: reach_full without ANY premise on the first-vote step (just "it is an Insert").
+   Every such state is a reach_full state and satisfies full_inv, so every vote-node carries the
+   specification's weight in both phases in every state reachable by imports. *)
+Theorem C20_graph_reach_all_in_reach_full : forall t lbl G heads eqv S ins,
+  reach_all t lbl G heads eqv S ins -> reach_full t lbl G heads eqv S ins /\ heads_cover t G heads.
+Proof. exact reach_all_full. Qed.
+Print Assumptions C20_graph_reach_all_in_reach_full.
+
+Theorem C20_graph_reach_all_invariants : forall t lbl G heads eqv S ins,
+  reach_all t lbl G heads eqv S ins ->
+  full_inv t G heads ins /\ (forall ph, (ph < 2)%nat -> tracker_ok t ph (S ph) eqv ins).
+Proof. exact reach_all_invariants. Qed.
+Print Assumptions C20_graph_reach_all_invariants.
+
+Theorem C20_graph_reach_all_node_weights : forall t lbl ws G heads eqv S ins,
+  reach_all t lbl G heads eqv S ins ->
+  forall y e ph, (ph < 2)%nat -> eget y G = Some e ->
+  bits_weight ws (g_cum e) eqv ph = weight t ws (S ph) y.
+Proof. exact reach_all_node_weights. Qed.
+Print Assumptions C20_graph_reach_all_node_weights.
+
+(* non-vacuity: append, introduceBranch, append on a fork, existing node -- no path premises *)
+Example C20_graph_reach_all_example :
+  let t := [0; 1; 0]%nat in
+  exists G heads eqv S ins, reach_all t (fun b => b) G heads eqv S ins /\
+    ins = [(2, 6); (3, 4); (1, 2); (2, 0)]%nat /\ map fst G = [0; 2; 1; 3]%nat /\ heads = [2; 3]%nat.
+Proof. exact reach_all_example. Qed.
+
+(* the exact shape of the heads and of the descendant lists (what FindGHOST reads), also preserved
+   by EVERY Insert: every head is a vote-node with no vote-node strictly below it (with
+   heads_cover: the heads are exactly the lowest vote-nodes), and g_desc of a vote-node x holds
+   exactly the vote-nodes whose ancestor edge ends in x *)
+Theorem C20_graph_insert_preserves_shape : forall t lbl G heads h b ins,
+  full_inv t G heads ins ->
+  (forall hd, In hd heads -> (exists e, eget hd G = Some e) /\
+     (forall y ey, eget y G = Some ey -> anc t hd y -> y = hd)) ->
+  (forall x e, eget x G = Some e -> forall d,
+     In d (g_desc e) <-> exists ed, eget d G = Some ed /\ ancestor_node ed = Some x) ->
+  let G' := fst (insert t lbl G heads h b) in
+  let heads' := snd (insert t lbl G heads h b) in
+  (forall hd, In hd heads' -> (exists e, eget hd G' = Some e) /\
+     (forall y ey, eget y G' = Some ey -> anc t hd y -> y = hd)) /\
+  (forall x e, eget x G' = Some e -> forall d,
+     In d (g_desc e) <-> exists ed, eget d G' = Some ed /\ ancestor_node ed = Some x).
+Proof. exact insert_preserves_shape. Qed.
+Print Assumptions C20_graph_insert_preserves_shape.
+
+Theorem C20_graph_inserts_shape : forall t lbl vs,
+  heads_exact t (fst (inserts t lbl vs)) (snd (inserts t lbl vs)) /\ desc_ok (fst (inserts t lbl vs)).
+Proof. exact inserts_shape. Qed.
+Print Assumptions C20_graph_inserts_shape.
+
+Theorem C20_graph_reach_all_shape : forall t lbl G heads eqv S ins,
+  reach_all t lbl G heads eqv S ins -> heads_exact t G heads /\ desc_ok G.
+Proof. exact reach_all_shape. Qed.
+Print Assumptions C20_graph_reach_all_shape.
